@@ -25,7 +25,7 @@ CHECKS = {
               # the same harness on the library built without any hardware AES: the wipe code of crypto_aes.c / crypto_aesctr.c that
               # is compiled there is not the code of the first build (#ifdef HWACCEL); the other sections compile to the same code in both
               dict(name="wipe-noaesni", target="h_wipe", cpu=NO_AESNI, args=["--sections", "aes,ctr", "--ignore-deep"], quick=[], thorough=[])],
-        deadline=dict(quick=150, thorough=900),   # deep: ~150 s measured at load average 20 before the histories at 8 mod 16 / other secret lengths were added (+10%); 2.5x that wall time when the machine is saturated by others
+        deadline=dict(quick=300, thorough=1350),   # deep: ~150 s measured at load average 20 before the histories at 8 mod 16 / other secret lengths were added (+10%); 2.5x that wall time when the machine is saturated by others
         explanation=("states/transitions: hash = explicit-state search (engine/es.h) over (history, raw context bytes), one real Update/Final per edge; "
                      "aes/aesctr/keys = nodes and API calls of the history trees; dh = allocator events observed by the monitor during each call. "
                      "traces = complete histories ending in Final / free / return, each judged by the wipe oracle. Two runs: 'wipe' = library built with every CPUSUPPORT_ feature, all "
